@@ -306,17 +306,19 @@ class RoutingTable:
             hash_binary = id_to_binary_string(node_id)
             prefix = self.trie.longest_prefix(hash_binary, default="")
 
-            nodes = set()
+            # Nodes are keyed by id here (like in the buckets): Node equality only considers the public key, which
+            # would merge two entries of the same peer that were stored under different ids.
+            nodes: dict[bytes, Node] = {}
             for i in reversed(range(len(prefix) + 1)):
                 for suffix in self.trie.suffixes(prefix[:i]):
                     bucket = self.trie[prefix[:i] + suffix]
-                    nodes |= {node for node in list(bucket.nodes.values())
-                              if node.status != NODE_STATUS_BAD and (exclude_node is None
-                                                                     or node.id != exclude_node.id)}
+                    nodes.update({node.id: node for node in list(bucket.nodes.values())
+                                  if node.status != NODE_STATUS_BAD and (exclude_node is None
+                                                                         or node.id != exclude_node.id)})
 
                 # Limit number of nodes returned
                 if len(nodes) > max_nodes:
                     break
 
             # Ensure nodes are sorted by distance
-            return sorted(nodes, key=lambda n: (distance(n.id, node_id), n.status))[:max_nodes]
+            return sorted(nodes.values(), key=lambda n: (distance(n.id, node_id), n.status))[:max_nodes]
